@@ -26,7 +26,7 @@ RULE = (
     "GetValue(own unit) returns the stored value for simple, derived and empty quantities. Second configuration: "
     "after the shipped table, a small project database that reuses its symbols with other factors is used in the "
     "same process and all its pairs x categories go through all routes (nothing may be remembered per symbol "
-    "across databases). Targets that have a legacy spelling are also asked for in that spelling (GetValue, CreateCopy, ChangeScalars, Array / FixedArray routes, db.Convert): same numbers, category and type of the source kept; FixedArray.ChangingIndex also with a (value, unit) pair and use_value_unit=False. Quantities and objects obtained while a project database was current are used after the shipped one is current again (flat and nested containers, objects built on the quantity, copies with new values): the quantity's own database converts. Non-trivial = u!=v, "
+    "across databases). Targets that have a legacy spelling are also asked for in that spelling (GetValue, CreateCopy, ChangeScalars, Array / FixedArray routes, db.Convert): same numbers, category and type of the source kept; FixedArray.ChangingIndex also with a (value, unit) pair and use_value_unit=False. Quantities and objects obtained while a project database was current are used after the shipped one is current again (flat and nested containers, objects built on the quantity, copies with new values): the quantity's own database converts. Before the sweep some symbols are offered for registration once more with other formulas (refused): their conversions are the same afterwards. Non-trivial = u!=v, "
     "conversion not identity, x!=0, container non-empty; distinct key = (route, qt, u, v, category)."
 )
 ASSUMPTIONS = [
@@ -590,6 +590,24 @@ def run_shard(spec, ctx):
                 items.append((qt, iu, u))
                 weights.append(len(us) if tier == "thorough" else 2)
         mine = partition(items, weights, spec["nparts"])[spec["part"]]
+        # quantities of some units are obtained, then the same symbols are offered for registration once more with other
+        # formulas (refused: nothing changes) - all routes below still give the database's numbers
+        from barril.units import ObtainQuantity as _OQ
+
+        again = [u for _qt, _iu, u in mine[:: max(1, len(mine) // 30)]]
+        before = {}
+        for sym in again:
+            _OQ(sym)
+            qt_ = db.unit_to_unit_info[sym].quantity_type
+            before[sym] = [db.Convert(qt_, sym, w.unit, 2.5) for w in db.quantity_types[qt_][:3]]
+        env.refused_reregistrations(db, again)
+        for sym in again:
+            qt_ = db.unit_to_unit_info[sym].quantity_type
+            after = [db.Convert(qt_, sym, w.unit, 2.5) for w in db.quantity_types[qt_][:3]]
+            ctx.ev()
+            if after != before[sym]:
+                ctx.record("conversion_changed_by_a_refused_registration:%s" % sym, {"kind": "reregistration", "sym": sym}, "after AddUnit for the existing symbol %r was refused, 2.5 %s converts to %r (before: %r)" % (sym, sym, after, before[sym]))
+        ctx.cls("refused_reregistrations_first", len(again))
         ctx.exhaustive["unit pairs per quantity type"] = "all" if tier == "thorough" else "every unit as source, Hypothesis-drawn partner offsets"
         ctx.exhaustive["(category, unit) defaults"] = "all"
 
@@ -764,6 +782,18 @@ def variant_sweep(ctx, xs, ints):
 
 
 def replay(case, ctx):
+    if case.get("kind") == "reregistration":
+        db = env.new_db("posc")
+        with env.pushed(db):
+            from barril.units import ObtainQuantity
+
+            sym = case["sym"]
+            ObtainQuantity(sym)
+            qt_ = db.unit_to_unit_info[sym].quantity_type
+            before = [db.Convert(qt_, sym, w.unit, 2.5) for w in db.quantity_types[qt_][:3]]
+            env.refused_reregistrations(db, [sym])
+            after = [db.Convert(qt_, sym, w.unit, 2.5) for w in db.quantity_types[qt_][:3]]
+        return [] if after == before else ["after a refused AddUnit for %r: %r, before %r" % (sym, after, before)]
     if case.get("kind") == "other_database":
         db = env.new_db("posc")
         with env.pushed(db):
